@@ -42,10 +42,15 @@ IncCover(st) == \A d \in 1..NDen :
 
 QueriesAnswer(st) == \A k \in 1..Len(st.pos) : st.pos[k].qerr = ""
 
+LockedIds(st) == {st.pos[k].id : k \in {k \in 1..Len(st.pos) : st.pos[k].lock = 1}}
+
 DrainOK(ev) == \A k \in 1..Len(ev.drain) :
     LET dr == ev.drain[k] IN
-    /\ dr.fail = <<>>                                           \* everybody could leave
-    /\ \A d \in 1..2 : B!Le(dr.poolBal[d], B!OfInt(DustPerOp * (nops + 2)))   \* only dust is left
+    \* everybody not bound by an unexpired lock could collect and leave; a lock-bound position may only
+    \* fail to WITHDRAW (its rewards remain collectable)
+    /\ dr.failC = <<>>
+    /\ \A j \in 1..Len(dr.fail) : dr.fail[j] \in LockedIds(ev.st)
+    /\ (dr.fail = <<>> => \A d \in 1..2 : B!Le(dr.poolBal[d], B!OfInt(DustPerOp * (nops + 2))))   \* only dust is left
     /\ \A d \in 1..NDen : B!Le(dr.recRem[d], B!Add(dr.incBal[d], B!One)) \* undistributed incentives still there
 
 StateOK(ev) ==
